@@ -129,6 +129,16 @@ def qv(rng, cls, attr, nice=False, spread=0.5):
         m = mag * rng.choice([0.5, 1, 1, 2, 4])
     else:
         m = mag * factor(rng, spread)
+    if rng.random() < 0.15:
+        # the same physical value written in another unit (a server's RAM in MB, a lifespan in days...)
+        alts = ALT_UNITS.get(unit.replace(" ", ""))
+        if alts:
+            from efootprint.constants.units import u
+            nu = rng.choice(alts)
+            try:
+                m, unit = float(u.Quantity(float(m), unit).to(nu).magnitude), nu
+            except Exception:
+                pass
     return ["q", float(m), unit]
 
 
